@@ -575,6 +575,47 @@ def check_server(n_per_client=3):
             out.append(('server-loses-messages-of-disconnected-client', {'kind': 'server'},
                         'a client sent %d messages and disconnected; the server handed out %r' % (
                             len(late), got3)))
+        # one client leaves (the server notices it in one poll) and another one arrives before the
+        # next poll: the number of connections is the same, the connections are not
+        for round_ in range(3):
+            ca = connect('127.0.0.1', portno)
+            ca.send(mido.Message('note_on', channel=6, note=round_))
+            gota = []
+            deadline = time.time() + 3
+            while not gota and time.time() < deadline:
+                state['sleeps'] = 0
+                m = server.poll()
+                if m is not None:
+                    gota.append(m)
+                else:
+                    time.sleep(0.002)
+            ca.close()
+            ca._rfile.close()
+            ca._wfile.close()
+            time.sleep(0.03)
+            state['sleeps'] = 0
+            server.poll()                       # notices the EOF of ca
+            cb = connect('127.0.0.1', portno)
+            want = mido.Message('note_on', channel=7, note=round_)
+            cb.send(want)
+            deadline = time.time() + 2
+            while time.time() < deadline and not select.select([server._socket], [], [], 0.05)[0]:
+                pass
+            gotb = []
+            deadline = time.time() + 3
+            while not gotb and time.time() < deadline:
+                state['sleeps'] = 0
+                m = server.poll()
+                if m is not None:
+                    gotb.append(m)
+                else:
+                    time.sleep(0.002)
+            clients.append(cb)
+            if [x.note for x in gota] != [round_] or gotb != [want]:
+                out.append(('server-ignores-client-that-replaced-another', {'kind': 'server'},
+                            'round %d: a client left and another one connected between two polls; the server handed out %r and %r' % (
+                                round_, gota, gotb)))
+                break
         # closing the server is seen as a disconnect by EVERY client still connected
         raws = []
         for _ in range(3):                # one at a time: the listen backlog is 1
